@@ -26,6 +26,7 @@ type Stream interface {
 	Distinct() Stream
 	Append(items ...int) Stream
 	Concat(slices ...[]int) Stream
+	ConcatStream(o Stream) Stream // Concat with the other stream's own slice (what `s.Concat(*t)` passes)
 	Extend(others ...Stream) Stream
 	Remove(i int) Stream
 	RemoveItem(items ...int) Stream
@@ -73,6 +74,7 @@ func (s GStream) FilterNotNil() Stream                { return GStream{s.S.Filte
 func (s GStream) Distinct() Stream                    { return GStream{s.S.Distinct()} }
 func (s GStream) Append(items ...int) Stream          { return GStream{s.S.Append(items...)} }
 func (s GStream) Concat(slices ...[]int) Stream       { return GStream{s.S.Concat(slices...)} }
+func (s GStream) ConcatStream(o Stream) Stream        { return GStream{s.S.Concat([]int(*o.(GStream).S))} }
 func (s GStream) Extend(others ...Stream) Stream {
 	var a []*fpgo.StreamDef[int]
 	for _, o := range others {
@@ -164,6 +166,9 @@ func (s IStream) Reject(f func(int, int) bool) Stream {
 func (s IStream) FilterNotNil() Stream       { return IStream{s.S.FilterNotNil()} }
 func (s IStream) Distinct() Stream           { return IStream{s.S.Distinct()} }
 func (s IStream) Append(items ...int) Stream { return IStream{s.S.Append(ifaces(items)...)} }
+func (s IStream) ConcatStream(o Stream) Stream {
+	return IStream{s.S.Concat([]interface{}(*o.(IStream).S))}
+}
 func (s IStream) Concat(slices ...[]int) Stream {
 	var a [][]interface{}
 	for _, sl := range slices {
